@@ -134,7 +134,11 @@ def one_run(ctx, prog, g, exe, backend, cfg):
     ops, impl, stats, viols = pv.parse_transcript(out)
     r['n'] = len(ops)
     if rc not in (0, 3) or not ops:
-        r['crash'] = 'exit %s after %d transcript lines: %s' % (rc, len(ops), err[-500:])
+        msg = 'exit %s after %d transcript lines: %s' % (rc, len(ops), err[-500:])
+        if expect_neg:       # e.g. corpus 003 under index-array: the runaway startup loop creates T(-1), T(-2).. outside the dependency array
+            r['known'] = ['negative-step program crashed: ' + msg]
+        else:
+            r['crash'] = msg
         return r
     if len(ops) > 3000:      # a runaway program (corpus 003): keep the prefix
         ops, impl = ops[:3000] + [ops[-1]], impl[:3000] + [impl[-1]]
@@ -168,7 +172,7 @@ def run(ctx, res, cases=None):
     wf_count = {'true': 0, 'false': 0}
     stats_lines = []
     for p in progs:
-        for g in p.gvecs:
+        for g in (p.gvecs[:2] if ctx.quick else p.gvecs):
             m = pvptg.Model(p, g)
             wf, st = m.ask(['wf', 'stats'] + ['hyps %d' % c for c in range(len(p.classes))])[:2]
             wf_count[wf] = wf_count.get(wf, 0) + 1
